@@ -27,7 +27,7 @@ EncodeTags(e, rd) ==
       nb == Len(e.content)
   IN IF pct < 0 THEN <<>>                          \* negative percentages are outside every property's domain
      ELSE OutcomeTags(e)
-     \o (IF r.kind = "error" /\ AZ!MustAccept(nb, pct, req) THEN <<"reject-representable">>
+     \o (IF r.kind = "error" /\ AZ!MustAccept(e.content, pct, req) THEN <<"reject-representable">>
          ELSE IF r.kind = "ok" /\ AZ!MustReject(nb, pct, req) THEN <<"accept-unrepresentable">> ELSE <<>>)
      \o (IF r.kind \in {"ok", "error"} /\ ~r.inputsame THEN <<"input-modified">> ELSE <<>>)
      \o (IF r.kind # "ok" THEN <<>>
